@@ -27,8 +27,12 @@
   * `efd_history_independent` (`request_efd`, `slice_efd`), `asis_efd_stale`
                              — `edge_face_distances` is NOT a per-edge invariant of a restriction (it looks at
                                both faces of the edge): masked on travel (fixes/C09-3) the subset reports what it
-                               derives itself, for every history — under the decidable hypothesis `EFDTransport`,
-                               which the driver evaluates per case; the as-is slicer is history dependent.
+                               derives itself, for every history — under the decidable hypothesis `EFDTransport`;
+                               the as-is slicer is history dependent.
+  * `efd_transport`, `efdTransport_of_pre`, `efd_history_independent_of_pre`
+                             — `EFDTransport` PROVED from C03's `EdgeFaceOK` of the source's and the subset's
+                               edge-face tables + "the two faces of an edge are distinct" (`mem_faceEdgesOf_sub`:
+                               edge k of the subset lies in subset face i iff its source edge lies in face idx[i]).
   * `asis_*`                 — what /repo did before the repair: proved counterexamples.
   * `data_aligned`, `data_aligned_rank`
                              — sliced data are the source's at the recorded indices, any rank.
@@ -1675,11 +1679,11 @@ theorem runHist_efd {B : Base} {g : State} (h : Coh B g) (he : EfdOK B g) (hist 
 
 /-- the decidable transport condition: the source's distances, masked to the edges whose two faces were
     both selected and renumbered, ARE the distances the subset derives from its own
-    `edge_face_connectivity` .  It is a HYPOTHESIS of
-    `efd_history_independent`: decided by the kernel in the examples below and by the driver
-    (`C09.efdtransport`) on the tables of every generated case.  NOT proved in general (it would follow from
-    C03's `EdgeFaceOK` for both grids plus "the two faces of an edge are distinct"; full statement:
-    `∀ B idx, Pre … → EdgeFaceOK … B.EF → EdgeFaceOK … (B.slice idx).EF → EFDTransport B idx`). -/
+    `edge_face_connectivity` .  It is the hypothesis of
+    `efd_history_independent`; `efd_transport` / `efdTransport_of_pre` (section 7g) PROVE it from C03's
+    specification of the source's and the subset's edge-face tables when no face lists an edge twice, giving
+    `efd_history_independent_of_pre`.  The driver still evaluates it on every generated case
+    (`C09.efdtransport`) as a correspondence check of the model. -/
 def EFDTransport (B : Base) (idx : List Nat) : Prop :=
   travelEFD true idx (edgeSel { t := B.t, EN := B.EN, FE := B.FE } idx) B.EFD = (B.slice idx).EFD
 
@@ -1725,6 +1729,268 @@ theorem efd_history_independent {B : Base} {g : State} (h : Coh B g) (he : EfdOK
   have : request u1 .edgeFaceDist = getEFD u1 := rfl
   simp only [State.viewEFD, h3, Option.bind_eq_bind, Option.bind_some, this, h4, Option.pure_def, e4,
     Option.getD_some]
+
+/-! ## 7g. `EFDTransport` from C03's specification of both edge-face tables -/
+
+theorem idxOf_getElem_nodup {l : List Nat} (hn : l.Nodup) {i : Nat} (hi : i < l.length) :
+    l.idxOf l[i] = i := by
+  have hm : l[i] ∈ l := List.getElem_mem hi
+  have hlt := List.idxOf_lt_length_iff.mpr hm
+  exact getElem_inj_of_nodup hn hlt hi (List.getElem_idxOf hlt)
+
+theorem idxOf_getElem_nodupI {l : List Int} (hn : l.Nodup) {i : Nat} (hi : i < l.length) :
+    l.idxOf l[i] = i := by
+  have hm : l[i] ∈ l := List.getElem_mem hi
+  have hlt := List.idxOf_lt_length_iff.mpr hm
+  exact getElem_inj_of_nodup hn hlt hi (List.getElem_idxOf hlt)
+
+theorem renF_ofNat {idx : List Nat} (hn : idx.Nodup) {i : Nat} (hi : i < idx.length) :
+    renF idx (Int.ofNat idx[i]) = Int.ofNat i := by
+  unfold renF
+  have : (0 : Int) ≤ Int.ofNat idx[i] ∧ (Int.ofNat idx[i]).toNat ∈ idx := by
+    refine ⟨Int.natCast_nonneg _, ?_⟩
+    simp
+  rw [if_pos this]
+  simp [idxOf_getElem_nodup hn hi]
+
+theorem selectedF_iff {idx : List Nat} {x : Int} :
+    selectedF idx x = true ↔ ∃ i, ∃ hi : i < idx.length, x = Int.ofNat idx[i] := by
+  unfold selectedF
+  rw [decide_eq_true_iff]
+  constructor
+  · rintro ⟨h0, hm⟩
+    obtain ⟨i, hi, he⟩ := List.getElem_of_mem hm
+    exact ⟨i, hi, by rw [he]; simp [Int.toNat_of_nonneg h0]⟩
+  · rintro ⟨i, hi, rfl⟩
+    exact ⟨Int.natCast_nonneg _, by simp⟩
+
+section Transport
+variable {n w : Nat} {s : Src} {idx : List Nat}
+
+/-- the real edges of subset face `i` are the renumbered real edges of source face `idx[i]` -/
+theorem faceEdgesOf_sub (h : Pre n w s idx) {i : Nat} (hi : i < idx.length) :
+    Incidence.faceEdgesOf (sliceFaces s idx).FE (nNodesPerFace (sliceFaces s idx).t) i
+      = (Incidence.faceEdgesOf s.FE (nNodesPerFace s.t) idx[i]).map (remap (edgeSel s idx)) := by
+  unfold Incidence.faceEdgesOf
+  have hft : idx[i] < s.t.length := h.2.2.1 _ (List.getElem_mem hi)
+  have hrow : rowAt (sliceFaces s idx).FE i = (rowAt s.FE idx[i]).map (remap (edgeSel s idx)) :=
+    rowAt_map_idx idx _ i hi
+  have hN : (nNodesPerFace (sliceFaces s idx).t).getD i 0 = (nNodesPerFace s.t).getD idx[i] 0 := by
+    simp only [nNodesPerFace, sliceFaces, List.map_map, List.getD, List.getElem?_map,
+      List.getElem?_eq_getElem hi, List.getElem?_eq_getElem hft, Option.map_some, Option.getD_some,
+      Function.comp]
+    rw [nNodesRow_map (fun _ => remap_eq_fill_iff)]
+    simp [rowAt, List.getD, List.getElem?_eq_getElem hft]
+  rw [hrow, hN, List.map_take]
+
+/-- edge `k` of the subset belongs to subset face `i` iff its source edge belongs to source face `idx[i]` -/
+theorem mem_faceEdgesOf_sub (h : Pre n w s idx) {i k : Nat} (hi : i < idx.length)
+    (hk : k < (edgeSel s idx).length) :
+    Int.ofNat k ∈ Incidence.faceEdgesOf (sliceFaces s idx).FE (nNodesPerFace (sliceFaces s idx).t) i ↔
+      (edgeSel s idx)[k] ∈ Incidence.faceEdgesOf s.FE (nNodesPerFace s.t) idx[i] := by
+  rw [faceEdgesOf_sub h hi]
+  have hek : (edgeSel s idx)[k] ∈ edgeSel s idx := List.getElem_mem hk
+  have hne := (mem_sel.mp hek).2
+  have hk' : remap (edgeSel s idx) (edgeSel s idx)[k] = Int.ofNat k := by
+    have hnd' : (edgeSel s idx).Nodup := nodup_sel _
+    rw [remap_of_ne hne, idxOf_getElem_nodupI hnd' hk]
+  constructor
+  · intro hm
+    rcases List.mem_map.mp hm with ⟨x, hx, hxe⟩
+    have hxrow : x ∈ rowAt s.FE idx[i] := by
+      unfold Incidence.faceEdgesOf at hx
+      exact (List.take_sublist _ _).subset hx
+    have hxs := row_in_edgeSel (s := s) (List.getElem_mem hi) x hxrow
+    have : x = (edgeSel s idx)[k] := remap_inj hxs (Or.inr hek) (by rw [hxe, hk'])
+    rw [← this]; exact hx
+  · intro hm
+    exact List.mem_map.mpr ⟨_, hm, hk'⟩
+
+/-- **`EFDTransport` follows from C03's specification of the source's and of the subset's
+    `edge_face_connectivity`, when the two faces of an edge are distinct**: the source's distances, kept
+    only where both faces were selected and renumbered, are what the subset derives from its own table -/
+theorem efd_transport (h : Pre n w s idx) {EF EF' : List (Int × Int)}
+    (hEF : Incidence.EdgeFaceOK s.FE (nNodesPerFace s.t) s.EN.length EF)
+    (hEF' : Incidence.EdgeFaceOK (sliceFaces s idx).FE (nNodesPerFace (sliceFaces s idx).t)
+      (sliceFaces s idx).EN.length EF')
+    (hD : ∀ p ∈ EF, p.1 ≠ p.2) (hD' : ∀ p ∈ EF', p.1 ≠ p.2) :
+    travelEFD true idx (edgeSel s idx) (efdOf EF) = efdOf EF' := by
+  have hnd := h.2.2.2
+  have hlenEN' : (sliceFaces s idx).EN.length = (edgeSel s idx).length := by simp [sliceFaces]
+  have hlenFE' : (sliceFaces s idx).FE.length = idx.length := by simp [sliceFaces]
+  have hlenFE : s.FE.length = s.t.length := h.2.1.2.2.2.1.1
+  apply List.ext_getElem
+  · simp [travelEFD, efdOf, hEF'.1, hlenEN']
+  · intro k hk1 hk2
+    have hk : k < (edgeSel s idx).length := by simpa [travelEFD] using hk1
+    have hek : (edgeSel s idx)[k] ∈ edgeSel s idx := List.getElem_mem hk
+    obtain ⟨he0, hel, _⟩ := edge_valid h hek
+    generalize hedef : (edgeSel s idx)[k] = e at hek he0 hel
+    have helEF : e.toNat < EF.length := by rw [hEF.1]; exact hel
+    have hkEF' : k < EF'.length := by rw [hEF'.1, hlenEN']; exact hk
+    -- the two rows
+    obtain ⟨hp1, _, hpv, hpm⟩ := hEF.2 e.toNat hel
+    obtain ⟨hq1, _, hqv, hqm⟩ := hEF'.2 k (by rw [hlenEN']; exact hk)
+    rw [getD_lt _ helEF] at hp1 hpv hpm
+    rw [getD_lt _ hkEF'] at hq1 hqv hqm
+    generalize hpdef : EF[e.toNat] = p at hp1 hpv hpm
+    generalize hqdef : EF'[k] = q at hq1 hqv hqm
+    have hpD : p.1 ≠ p.2 := by rw [← hpdef]; exact hD _ (List.getElem_mem helEF)
+    have hqD : q.1 ≠ q.2 := by rw [← hqdef]; exact hD' _ (List.getElem_mem hkEF')
+    have hofe : Int.ofNat e.toNat = e := by simp [Int.toNat_of_nonneg he0]
+    -- membership transport
+    have M : ∀ i (hi : i < idx.length),
+        (Int.ofNat i = q.1 ∨ Int.ofNat i = q.2) ↔ (Int.ofNat idx[i] = p.1 ∨ Int.ofNat idx[i] = p.2) := by
+      intro i hi
+      have hft : idx[i] < s.t.length := h.2.2.1 _ (List.getElem_mem hi)
+      rw [hqm i (by rw [hlenFE']; exact hi), mem_faceEdgesOf_sub h hi hk, hedef,
+        hpm idx[i] (by rw [hlenFE]; exact hft), hofe]
+    -- evaluate both sides
+    have hL : (travelEFD true idx (edgeSel s idx) (efdOf EF))[k]
+        = (if p.2 = FILL then none else
+            if !(selectedF idx (sortPair p).1 && selectedF idx (sortPair p).2) then none
+            else some (sortPair (renF idx (sortPair p).1, renF idx (sortPair p).2))) := by
+      simp only [travelEFD, List.getElem_map, hedef]
+      have : getI? (efdOf EF) e = some (if p.2 = FILL then none else some (sortPair p)) := by
+        rw [← hofe, getI?_ofNat]
+        simp [efdOf, List.getElem?_map, List.getElem?_eq_getElem helEF, hpdef]
+      rw [this]
+      by_cases hp2 : p.2 = FILL
+      · simp [hp2]
+      · simp [hp2]
+    have hR : (efdOf EF')[k] = (if q.2 = FILL then none else some (sortPair q)) := by
+      simp [efdOf, hqdef]
+    rw [hL, hR]
+    -- selected faces are positions in idx
+    have selP : ∀ x, (x = p.1 ∨ x = p.2) → x ≠ FILL → selectedF idx x = true →
+        ∃ i, ∃ hi : i < idx.length, x = Int.ofNat idx[i] := fun x _ _ hx => selectedF_iff.mp hx
+    by_cases hq2 : q.2 = FILL
+    · -- the subset's edge is a boundary edge: not both source faces can be selected
+      rw [if_pos hq2]
+      by_cases hp2 : p.2 = FILL
+      · rw [if_pos hp2]
+      · rw [if_neg hp2]
+        have : ¬ (selectedF idx p.1 = true ∧ selectedF idx p.2 = true) := by
+          rintro ⟨s1, s2⟩
+          obtain ⟨i1, hi1, e1⟩ := selectedF_iff.mp s1
+          obtain ⟨i2, hi2, e2⟩ := selectedF_iff.mp s2
+          have m1 := (M i1 hi1).mpr (Or.inl e1.symm)
+          have m2 := (M i2 hi2).mpr (Or.inr e2.symm)
+          have f1 : Int.ofNat i1 = q.1 := by
+            rcases m1 with m | m
+            · exact m
+            · rw [hq2] at m; exact absurd m (ofNat_ne_FILL i1)
+          have f2 : Int.ofNat i2 = q.1 := by
+            rcases m2 with m | m
+            · exact m
+            · rw [hq2] at m; exact absurd m (ofNat_ne_FILL i2)
+          have : i1 = i2 := by
+            have : Int.ofNat i1 = Int.ofNat i2 := by rw [f1, f2]
+            exact Int.ofNat.inj this
+          subst this
+          exact hpD (by rw [e1, e2])
+        have hsp : ¬ (selectedF idx (sortPair p).1 = true ∧ selectedF idx (sortPair p).2 = true) := by
+          rcases sortPair_cases p with hc | hc
+          · rw [hc]; exact this
+          · rw [hc]; exact fun ⟨a, b⟩ => this ⟨b, a⟩
+        have : (!(selectedF idx (sortPair p).1 && selectedF idx (sortPair p).2)) = true := by
+          simp only [Bool.not_eq_true', Bool.and_eq_false_iff]
+          by_cases ha : selectedF idx (sortPair p).1 = true
+          · right
+            cases hb : selectedF idx (sortPair p).2 with
+            | false => rfl
+            | true => exact absurd ⟨ha, hb⟩ hsp
+          · left; simpa using ha
+        rw [if_pos this]
+    · -- the subset's edge has two faces i1 ≠ i2: they are the positions of the source edge's two faces
+      rw [if_neg hq2]
+      have v1 := hqv q.1 (by simp)
+      have v2 := hqv q.2 (by simp)
+      obtain ⟨a0, a1⟩ : 0 ≤ q.1 ∧ q.1 < (sliceFaces s idx).FE.length := by
+        rcases v1 with v | v
+        · exact absurd v hq1
+        · exact v
+      obtain ⟨b0, b1⟩ : 0 ≤ q.2 ∧ q.2 < (sliceFaces s idx).FE.length := by
+        rcases v2 with v | v
+        · exact absurd v hq2
+        · exact v
+      rw [hlenFE'] at a1 b1
+      have hi1 : q.1.toNat < idx.length := by omega
+      have hi2 : q.2.toNat < idx.length := by omega
+      have c1 : Int.ofNat q.1.toNat = q.1 := by simp [Int.toNat_of_nonneg a0]
+      have c2 : Int.ofNat q.2.toNat = q.2 := by simp [Int.toNat_of_nonneg b0]
+      have m1 := (M _ hi1).mp (Or.inl c1)
+      have m2 := (M _ hi2).mp (Or.inr c2)
+      have hne12 : q.1.toNat ≠ q.2.toNat := by
+        intro hh; apply hqD; rw [← c1, ← c2, hh]
+      have hidxne : (Int.ofNat idx[q.1.toNat]) ≠ Int.ofNat idx[q.2.toNat] := by
+        intro hh
+        have := Int.ofNat.inj hh
+        exact hne12 (getElem_inj_of_nodup hnd hi1 hi2 this)
+      -- p = (idx[i1], idx[i2]) or swapped
+      have hcase : (p.1 = Int.ofNat idx[q.1.toNat] ∧ p.2 = Int.ofNat idx[q.2.toNat]) ∨
+          (p.1 = Int.ofNat idx[q.2.toNat] ∧ p.2 = Int.ofNat idx[q.1.toNat]) := by
+        rcases m1 with m1 | m1 <;> rcases m2 with m2 | m2
+        · exact absurd (m1.trans m2.symm) hidxne
+        · exact Or.inl ⟨m1.symm, m2.symm⟩
+        · exact Or.inr ⟨m2.symm, m1.symm⟩
+        · exact absurd (m1.trans m2.symm) hidxne
+      have r1 := renF_ofNat hnd hi1
+      have r2 := renF_ofNat hnd hi2
+      have s1 : selectedF idx (Int.ofNat idx[q.1.toNat]) = true := selectedF_iff.mpr ⟨_, hi1, rfl⟩
+      have s2 : selectedF idx (Int.ofNat idx[q.2.toNat]) = true := selectedF_iff.mpr ⟨_, hi2, rfl⟩
+      have hp2 : p.2 ≠ FILL := by
+        rcases hcase with ⟨_, hh⟩ | ⟨_, hh⟩ <;> rw [hh] <;> exact ofNat_ne_FILL _
+      rw [if_neg hp2]
+      -- whatever the orientation of `p` and of its sorted form, the renumbered pair is `q` up to order
+      have key : ∀ x y : Int, ((x = Int.ofNat idx[q.1.toNat] ∧ y = Int.ofNat idx[q.2.toNat]) ∨
+          (x = Int.ofNat idx[q.2.toNat] ∧ y = Int.ofNat idx[q.1.toNat])) →
+          (!(selectedF idx x && selectedF idx y)) = false ∧
+          sortPair (renF idx x, renF idx y) = sortPair q := by
+        intro x y hxy
+        rcases hxy with ⟨hx, hy⟩ | ⟨hx, hy⟩
+        · rw [hx, hy, s1, s2, r1, r2, c1, c2]; exact ⟨rfl, rfl⟩
+        · rw [hx, hy, s1, s2, r1, r2, c1, c2]
+          exact ⟨rfl, sortPair_swap q⟩
+      have hsp : ((sortPair p).1 = Int.ofNat idx[q.1.toNat] ∧ (sortPair p).2 = Int.ofNat idx[q.2.toNat]) ∨
+          ((sortPair p).1 = Int.ofNat idx[q.2.toNat] ∧ (sortPair p).2 = Int.ofNat idx[q.1.toNat]) := by
+        rcases sortPair_cases p with hc | hc
+        · rw [hc]; exact hcase
+        · rw [hc]; exact hcase.symm.imp (fun ⟨a, b⟩ => ⟨b, a⟩) (fun ⟨a, b⟩ => ⟨b, a⟩)
+      obtain ⟨k1, k2⟩ := key _ _ hsp
+      rw [k1]
+      simp only [Bool.false_eq_true, if_false]
+      rw [k2]
+
+end Transport
+
+/-- the two faces listed for an edge are distinct (no face contains the same edge twice) -/
+def DistinctFaces (EF : List (Int × Int)) : Prop := ∀ p ∈ EF, p.1 ≠ p.2
+
+instance (EF : List (Int × Int)) : Decidable (DistinctFaces EF) := by unfold DistinctFaces; infer_instance
+
+/-- `EFDTransport` is a theorem for every coherent source whose edge-face table and whose subset's
+    edge-face table meet C03's precondition (every edge in one or two face slots) with distinct faces -/
+theorem efdTransport_of_pre {n n' w : Nat} (B : Base) (idx : List Nat)
+    (h : Pre n w { t := B.t, EN := B.EN, FE := B.FE } idx)
+    (hP : Incidence.Pre n B.t B.FE B.N B.EN.length)
+    (hP' : Incidence.Pre n' (B.slice idx).t (B.slice idx).FE (B.slice idx).N (B.slice idx).EN.length)
+    (hD : DistinctFaces B.EF) (hD' : DistinctFaces (B.slice idx).EF) : EFDTransport B idx := by
+  unfold EFDTransport Base.EFD
+  exact efd_transport h (C03.edgeFace_ok hP) (C03.edgeFace_ok hP') hD hD'
+
+/-- **C09, histories, `edge_face_distances`, without the run-time hypothesis**: for every coherent
+    source (C02-correct edge tables, manifold: C03's precondition, for the source and for the subset; no
+    face listing an edge twice), every request history before slicing and every request order afterwards,
+    the subset reports the distances it derives from its own edge-face table -/
+theorem efd_history_independent_of_pre {n n' w : Nat} {B : Base} {g : State} (hc : Coh B g) (he : EfdOK B g)
+    {idx : List Nat} (h : Pre n w { t := B.t, EN := B.EN, FE := B.FE } idx)
+    (hP : Incidence.Pre n B.t B.FE B.N B.EN.length)
+    (hP' : Incidence.Pre n' (B.slice idx).t (B.slice idx).FE (B.slice idx).N (B.slice idx).EN.length)
+    (hD : DistinctFaces B.EF) (hD' : DistinctFaces (B.slice idx).EF) (hist order : List Var) :
+    ((runHist g hist).bind (fun g => g.slice idx)).bind (fun u => u.viewEFD order)
+      = some (B.slice idx).EFD :=
+  efd_history_independent hc he h.2.2.1 (efdTransport_of_pre B idx h hP hP' hD hD') hist order
 
 /-! ## 8. /repo before the repair: proved counterexamples, and non-vacuity -/
 
@@ -1824,5 +2090,12 @@ theorem asis_efd_stale :
     ((runHist g2 [.edgeFaceDist]).bind (fun g => g.slice [1])).bind (fun u => u.viewEFD [])
       = some [none, none, none] := by
   decide
+
+/-- `efdTransport_of_pre` instantiated (three quads in a row, subset = the last two in reverse order):
+    all its hypotheses are satisfiable -/
+example : EFDTransport { w := 4, t := [[0, 1, 5, 4], [1, 2, 6, 5], [2, 3, 7, 6]],
+                         EN := edges [[0, 1, 5, 4], [1, 2, 6, 5], [2, 3, 7, 6]],
+                         FE := faceEdges [[0, 1, 5, 4], [1, 2, 6, 5], [2, 3, 7, 6]] } [2, 1] :=
+  efdTransport_of_pre (n := 8) (n' := 6) (w := 4) _ _ (by decide) (by decide) (by decide) (by decide) (by decide)
 
 end UxVerif.C09
